@@ -68,6 +68,114 @@ var verifyAdapters = map[string]verifyAdapter{
 	}, rm.VerifyEncryptedLeaseSetBytes},
 }
 
+// heldValue is a parsed signed structure the caller keeps: the value itself (a pointer), its
+// verification and its serialisation.
+type heldValue struct {
+	val    any
+	verify func() bool
+	ser    func() ([]byte, error)
+}
+
+var holdAdapters = map[string]func(in []byte) (heldValue, bool){
+	"rinfo": func(in []byte) (heldValue, bool) {
+		v, _, err := router_info.ReadRouterInfo(in)
+		return heldValue{&v, func() bool { ok, e := v.VerifySignature(); return ok && e == nil }, func() ([]byte, error) { return v.Bytes() }}, err == nil
+	},
+	"leaseset": func(in []byte) (heldValue, bool) {
+		v, err := lease_set.ReadLeaseSet(in)
+		return heldValue{&v, func() bool { return v.Verify() == nil }, func() ([]byte, error) { return v.Bytes() }}, err == nil
+	},
+	"leaseset2": func(in []byte) (heldValue, bool) {
+		v, _, err := lease_set2.ReadLeaseSet2(in)
+		return heldValue{&v, func() bool { return v.Verify() == nil }, func() ([]byte, error) { return v.Bytes() }}, err == nil
+	},
+	"metaleaseset": func(in []byte) (heldValue, bool) {
+		v, _, err := meta_leaseset.ReadMetaLeaseSet(in)
+		return heldValue{&v, func() bool { return v.Verify() == nil }, func() ([]byte, error) { return v.Bytes() }}, err == nil
+	},
+	"encleaseset": func(in []byte) (heldValue, bool) {
+		v, _, err := encrypted_leaseset.ReadEncryptedLeaseSet(in)
+		return heldValue{&v, func() bool { return v.Verify() == nil }, func() ([]byte, error) { return v.Bytes() }}, err == nil
+	},
+}
+
+// c05Edited: a value that verified is then EDITED by its holder through the public surface
+// (exported fields, what accessors hand out, RouterInfo.AddAddress). Whenever verification still
+// reports success afterwards, the signature must be valid over what the value now serialises to -
+// success that survives a change of content is success over bytes the value no longer is.
+func c05Edited(c *core.Ctx, va verifyAdapter, sc signedCase, r *core.Rand) {
+	hold := holdAdapters[va.kind]
+	if hold == nil {
+		return
+	}
+	for mode := 0; mode < 3; mode++ {
+		if mode == 2 && va.kind != "rinfo" {
+			continue
+		}
+		var hv heldValue
+		var parsed, before, after bool
+		var edits int
+		var b []byte
+		var serr error
+		quiet := func(f func()) (panicked bool) {
+			defer func() {
+				if recover() != nil {
+					panicked = true
+				}
+			}()
+			f()
+			return false
+		}
+		// a value its holder has damaged may do anything but report success: panics are not judged here
+		if quiet(func() {
+			hv, parsed = hold(sc.bytes)
+			if !parsed {
+				return
+			}
+			before = hv.verify()
+			if !before {
+				return
+			}
+			switch mode {
+			case 0:
+				edits = lib.ScribbleExported(hv.val)
+			case 1:
+				edits = lib.ScribbleViaAccessors(hv.val)
+			default:
+				ri := hv.val.(*router_info.RouterInfo)
+				for try := 0; try < 12 && edits == 0; try++ {
+					if ra, err := lib.BuildRouterAddress(gen.RouterAddress(r)); err == nil && ra != nil && ri.AddAddress(ra) == nil {
+						edits = 1
+					}
+				}
+			}
+			if edits == 0 {
+				return
+			}
+			after = hv.verify()
+			if after {
+				b, serr = hv.ser()
+			}
+		}) || !parsed || !before || edits == 0 {
+			continue
+		}
+		c.Eval(1)
+		what := []string{"exported-fields", "accessor-results", "AddAddress"}[mode]
+		c.Bucket("edited-after-verification/" + va.kind + "/" + what + map[bool]string{true: "/still-verifies", false: "/no-longer-verifies"}[after])
+		if !after || serr != nil {
+			continue
+		}
+		s2 := gen.Shape{"derivation": "value-edited-after-verification/" + what, "kind": va.kind}
+		for k, v := range sc.shape {
+			s2[k] = v
+		}
+		if res, err := va.ref(b); err != nil || !res.Valid {
+			c.Violate(va.site, "verifies-after-its-content-was-changed", s2, sc.bytes,
+				fmt.Sprintf("%d edit(s) through %s; the value now serialises to %d bytes (read from %d) over which the signature is not valid (%v %s), yet verification reports success", edits, what, len(b), len(sc.bytes), err, res.Reason))
+		}
+	}
+}
+
 // c05Check applies the oracle to one (possibly adversarial) input.
 func c05Check(c *core.Ctx, va verifyAdapter, in []byte, sh gen.Shape, derivation string) (libOK bool) {
 	var parsed, verified bool
@@ -157,6 +265,9 @@ func runC05(c *core.Ctx) {
 				c.Sample(gen.Shape{"class": cl.name, "len": len(sc.bytes), "original_verified_by_library": true})
 			} else {
 				c.Bucket("original-not-verified-by-library/" + cl.name)
+			}
+			if i%4 == 0 {
+				c05Edited(c, va, sc, r)
 			}
 			// bit flips: every byte position for the first `full` cases, a stratified sample otherwise
 			positions := []int{}
